@@ -150,6 +150,8 @@ class RLRun:
         finally:
             self.thread_excs = list(b.thread_excs)
             self.steps, self.switches, self.line_points = b.steps, b.switches, b.line_points
+            self.decisions = b.decisions
+            self.preempted = list(b.preempted)
             self.sync_hash = hashlib.sha1(repr(b.sync_trace).encode()).hexdigest()[:16]
             self.n_sync = len(b.sync_trace)
             b.shutdown()
